@@ -3,6 +3,7 @@ import Sqfs.Spec.TarNumber
 import Sqfs.Model.TarSparse
 import Sqfs.Model.TarConv
 import Sqfs.Model.TarFix
+import Sqfs.Model.TarSqfs2tar
 import Sqfs.Spec.TarHeader
 namespace Driver.C04
 open Sqfs.Tar
@@ -82,6 +83,7 @@ def showIter (es : List IterEntry) (e : IterEnd) : String :=
   let one (x : IterEntry) : String :=
     s!"name={toHexTok x.name} mode={octStr x.mode} flags={if x.hardLink then 2 else 0} uid={x.uid} gid={x.gid} mtime={x.mtime} size={x.size}" ++
     (if fmt x.mode = S_IFLNK then " link=" ++ optHex x.link else "") ++
+    s!" maj={x.devMajor} min={x.devMinor} xattr={showXattr x.xattr}" ++
     (match x.data with
      | none => ""
      | some r => match r.ending with
@@ -103,6 +105,69 @@ def describeNode (devs : List (List Bytes × Nat × Nat)) (n : TNode) : String :
   else
     let d := (devs.find? (·.1 = n.path)).getD (n.path, 0, 0)
     "nod " ++ path ++ perm ++ s!" mtime={n.modTime} " ++ (if f = S_IFCHR then "c" else "b") ++ s!" {d.2.1} {d.2.2}"
+
+/-- `k:v,k:v` (hex tokens) or `-` -/
+def parseXattrList (s : String) : Option (List (Bytes × Bytes)) :=
+  if s = "-" then some [] else
+  (s.splitOn ",").foldr (fun kv acc => match acc, kv.splitOn ":" with
+    | some l, [k, v] => match fromHex k, fromHex v with
+      | some kb, some vb => some ((kb, vb) :: l)
+      | _, _ => none
+    | _, _ => none) (some [])
+
+/-- one listing entry: `name;mode-octal;uid;gid;mtime;inode;target|null;content;xattrs;maj;min` -/
+def parseRawEnt (tok : String) : Option RawEnt :=
+  match tok.splitOn ";" with
+  | [nm, mo, ui, gi, mt, ino, tg, ct, xs, mj, mi] => do
+    let nm ← fromHex nm
+    let mo ← parseOct mo
+    let ui ← ui.toNat?
+    let gi ← gi.toNat?
+    let mt ← mt.toNat?
+    let ino ← ino.toNat?
+    let tg ← if tg = "null" then some none else (fromHex tg).map some
+    let ct ← fromHex ct
+    let xs ← parseXattrList xs
+    let mj ← mj.toNat?
+    let mi ← mi.toNat?
+    pure { name := nm, mode := mo, uid := ui, gid := gi, mtime := mt, inode := ino, target := tg, content := ct, xattr := xs,
+           devMajor := mj, devMinor := mi }
+  | _ => none
+
+def parseAll {α : Type} (f : String → Option α) : List String → Option (List α)
+  | [] => some []
+  | x :: r => do
+    let a ← f x
+    let t ← parseAll f r
+    pure (a :: t)
+
+/-- `s2t <subdirs: hex,hex|-> <keep-as-dir> <root-becomes hex|null> <no-hard-links> <no-skip> <root: mode;uid;gid;mtime;xattrs> {entry}`:
+    the bytes the model's sqfs2tar writes (`sqfs2tarFull`), or `fail` -/
+def s2tOp (ws : List String) (entriesOnly : Bool) : String :=
+  match ws with
+  | sd :: kd :: rb :: nl :: ns :: root :: ents =>
+    let sds := if sd = "-" then some [] else parseAll fromHex (sd.splitOn ",")
+    let rbv := if rb = "null" then some none else (fromHex rb).map some
+    let rootv : Option RootInfo := match root.splitOn ";" with
+      | [mo, ui, gi, mt, xs] => do
+        let mo ← parseOct mo
+        let ui ← ui.toNat?
+        let gi ← gi.toNat?
+        let mt ← mt.toNat?
+        let xs ← parseXattrList xs
+        pure { mode := mo, uid := ui, gid := gi, mtime := mt, xattr := xs }
+      | _ => none
+    match sds, rbv, rootv, parseAll parseRawEnt ents with
+    | some sds, some rbv, some rootv, some raw =>
+      let o : S2tOpts := { subdirs := sds, keepAsDir := kd = "1", rootBecomes := rbv, noLinks := nl = "1", dontSkip := ns = "1" }
+      if entriesOnly then
+        " ".intercalate ((s2tEntries o rootv raw).map fun e =>
+          toHexTok e.name ++ (if e.hardLink then ">" ++ optHex e.target else ""))
+      else match sqfs2tarFull o rootv raw with
+        | none => "fail"
+        | some b => "ok " ++ toHexTok b
+    | _, _, _, _ => "bad-op"
+  | _ => "bad-op"
 
 def step (line : String) : String :=
   match words line with
@@ -151,9 +216,12 @@ def step (line : String) : String :=
       (if ok then "ok " else "err ") ++ toHexTok b
     | none => "bad-op"
   | ["dec", h] => withHex h fun s => showRead s (readHeader s)
-  | ["decx", r, k, d, h] => withHex h fun s =>
-    showRead s (readHeaderWith { rejectOversizedMap := r = "1", xattrKeepOrder := k = "1", schilyKeyDecode := d = "1" } s)
+  | ["decx", r, k, d, o, h] => withHex h fun s =>
+    showRead s (readHeaderWith { rejectOversizedMap := r = "1", xattrKeepOrder := k = "1", schilyKeyDecode := d = "1",
+                                 oldSparseBase256 := o = "1" } s)
   | ["canonip", h] => withHex h fun s => let (b, ok) := canonInPlace s; (if ok then "0 " else "-1 ") ++ toHexTok b
+  | "s2t" :: ws => s2tOp ws false
+  | "s2tents" :: ws => s2tOp ws true                      -- the entries `main` gets: emitted name, `>target` for a hard link
   | [op, rb, sflag, kflag, dmt, duid, dgid, dmode, h] =>
     if op ≠ "t2s" ∧ op ≠ "t2scur" then "bad-op" else
     match fromHex rb, dmt.toNat?, duid.toNat?, dgid.toNat?, parseOct dmode, fromHex h with
@@ -167,8 +235,12 @@ def step (line : String) : String :=
         | some (t, devs) => if storable t then "ok " ++ ";".intercalate (t.map (describeNode devs)) else "fail"
     | _, _, _, _, _, _ => "bad-op"
   | ["iter", h] => withHex h fun s => let (es, e) := iterate s; showIter es e
-  | ["iterx", r, k, d, h] => withHex h fun s =>
-    let (es, e) := iterateWith { rejectOversizedMap := r = "1", xattrKeepOrder := k = "1", schilyKeyDecode := d = "1" } s; showIter es e
+  | ["iterw", w, h] => match w.toNat? with                          -- the caller reads in requests of `w` bytes
+    | some w => if w < 1 ∨ w > 65536 then "bad-op" else withHex h fun s => let (es, e) := iterateWith {} s w; showIter es e
+    | none => "bad-op"
+  | ["iterx", r, k, d, o, h] => withHex h fun s =>
+    let (es, e) := iterateWith { rejectOversizedMap := r = "1", xattrKeepOrder := k = "1", schilyKeyDecode := d = "1",
+                                 oldSparseBase256 := o = "1" } s; showIter es e
   | _ => "bad-op"
 
 def run (_args : List String) : IO Unit := do
